@@ -308,7 +308,7 @@ pub fn run(sut: &dyn Sut, tier: Tier) -> ! {
     let mut stats = Stats::new();
     run.canaries(&mut |v| eval_replay(sut, v));
     let rounds = tier.pick(1, 8);
-    let n = tier.pick(320, 1600);
+    let n = tier.pick(640, 1600);
     let len = tier.pick((100, 600), (200, 1500));
     for r in 0..rounds {
         if run_round(&C04(tier), sut, &mut run, &mut stats, r as u64 + 1, n, len) {
